@@ -22,6 +22,8 @@ NB == 2
 Br(e) == IF "br" \in DOMAIN e THEN e.br ELSE 1
 \* bridge k as it sees the world: ports of foreign sockets and of the OTHER bridge object are occupied for it
 Eff(k) == [BB[k] EXCEPT !.occupied = occ \cup UNION {BB[j].bound \cup BB[j].closing : j \in (1..NB) \ {k}}]
+\* scripts/discover_devices.py: the ports scanned for a protocol-type option (20002/10002 type 1, 20003/10003 type 2)
+DiscoverPorts(t) == CASE t = "1" -> {20002, 10002} [] t = "2" -> {20003, 10003} [] OTHER -> {20002, 10002, 20003, 10003}
 Owner(p) == {k \in 1..NB : p \in BB[k].bound}
 SeqToSet(q) == {q[k] : k \in 1..Len(q)}
 NoKnown == <<>>
@@ -114,6 +116,13 @@ Step(e) ==
     [] e.ev = "Cycle" -> R(<<>>, "cycle", [j \in 1..NB |-> AfterCycle(BB[j])], occ, known)
     [] e.ev = "Occupy" -> R(Cl(~Busy(B, e.p), "harness:occupy-busy-port"), "occupy", BB, occ \cup {e.p}, known)
     [] e.ev = "Free" -> R(<<>>, "free", BB, occ \ {e.p}, known)
+    [] e.ev = "Discover" ->      \* beyond the listed statements: scripts/discover_devices.py run as a program
+         LET want == DiscoverPorts(e.type)
+             heard == SelectSeq(e.dgrams, LAMBDA g : g.p \in want /\ Classify(g.b).cls = "valid")
+         IN R(   Cl(SeqToSet(e.bound) = want, "X05:ports-of-the-protocol-type")
+              \o Cl(e.printed = [j \in 1..Len(heard) |-> HexLower(Field(heard[j].b, 18, 3))], "X05:prints-each-discovered-device-once")
+              \o Cl(e.exc = "", "X05:script-raised") \o Cl(e.left = <<>>, "X05:ports-released-at-exit"),
+              "discover-" \o (IF e.type = "" THEN "default" ELSE e.type), BB, occ, known)
     [] e.ev = "NetErr" -> R(Cl(~e.raised, "X02:error-report-raised"), IF e.handed THEN "net-error" ELSE "net-error-nobody-listens",
                             [j \in 1..NB |-> AfterNetError(BB[j])], occ, known)
     [] e.ev = "Obs" -> LET j == JudgeObs(e) IN R(j.why, j.tag, BB, occ, known)
